@@ -9,23 +9,25 @@ Reading of the property used here (DESIGN.md §C09):
 * An implementation error on a call the machine would permit (e.g. re-setting a local offer in
   HaveLocalOffer, create_offer in HaveLocalOffer) counts as "call not made": the spec machine only
   advances on calls that returned `ok`.
-* "Leaves … exactly as they were" is stated on the whole connection record except the mid counter
-  (`Pc.sameButMid`), which is stronger than the four items the property names (`Obs`).  The mid
-  counter is *not* among them and does move on a rejected `set_remote_description`
-  (`mid_counter_moves_on_rejected_remote_description`); it is compared with the code, not claimed.
-* ENVIRONMENT. The direct modes (RTP, SDES-SRTP) bind their sockets inside `create_offer`,
-  `create_answer` and `set_remote_description` and report a bind failure *after* mids were
-  assigned / the description was applied and the state moved.  So the two full statements of the
-  property are FALSE for the current code: `state_refines_spec_witness`, `error_is_atomic_witness`
-  (concrete connection whose bind address is unusable; replayed on the implementation, recorded as
-  known findings `…:io-failure-after-apply`).  What holds is proved as
-  - `accepted_calls_follow_spec`, `forbidden_call_errs`, `error_is_atomic_signaling_checks`,
-    `closed_is_terminal`, `pranswer_keeps_state`, `rollback_refused`: in EVERY environment;
-  - `state_refines_spec_partial`, `error_is_atomic_partial`: under the named hypothesis `EnvOk`
-    (socket binds succeed) — all call/state pairs, all descriptions.
+* "Leaves … exactly as they were" is stated as `(step pc c).1 = pc`: the whole connection record —
+  stronger than the four items the property names (`Obs`), and including the mid counter, the cached
+  remote fingerprint and the DTLS role.
+* ENVIRONMENT. The direct modes (RTP, SDES-SRTP) bind sockets inside the signaling calls. After the
+  round-2 `fix:` commits the signaling state is moved only after the description has been applied, and
+  `create_offer` (RTP) binds before assigning mids.  Hence
+  - `state_refines_spec` (clause 1 of the property) is proved IN FULL — every call sequence, every
+    description, every transport mode, every environment; likewise `rejected_call_keeps_state`,
+    `accepted_calls_follow_spec`, `forbidden_call_errs`, `closed_is_terminal`, `pranswer_keeps_state`,
+    `rollback_refused`;
+  - clause 2 in full is still FALSE: `error_is_atomic_witness` (RTP mode, unusable bind address:
+    `set_remote_description` stores the description and updates the transceivers, then returns the
+    bind error) and `srtp_create_offer_error_after_mid_assignment`; it is proved as
+    `error_is_atomic_partial` under the named hypothesis `EnvOk` (socket binds succeed, or WebRTC mode —
+    corollary `error_is_atomic_webrtc`), and as `error_is_atomic_signaling_checks` for every error the
+    model raises outside the socket layer.
 
-The two statements that were false before the `fix:` commits are kept as witnesses about the
-pre-fix code (`RtcModel.Jsep.Legacy`).
+Witnesses named `legacy_…` are about code that has since been fixed (`RtcModel.Jsep.Legacy`): they record
+why each `fix:` commit was needed and say nothing about the current tree.
 -/
 import RtcModel.Lemmas.Jsep
 
@@ -112,9 +114,6 @@ theorem remote_table_forbidden (s : SigState) (t : SdpType) (h : specStep s (.se
     ∀ s', remoteTransition s t ≠ .ok s' := by
   intro s' h'; rw [remote_table_refines_spec s s' t h'] at h; cases h
 
-/-- the named environment hypothesis: UDP socket binds succeed -/
-def EnvOk (pc : Pc) : Prop := pc.bindFails = false
-instance (pc : Pc) : Decidable (EnvOk pc) := by unfold EnvOk; infer_instance
 instance (pc : Pc) : Decidable (Inv pc) := by unfold Inv; infer_instance
 
 /-! ### one call -/
@@ -160,18 +159,21 @@ theorem inv_step (pc : Pc) (c : Call) (hi : Inv pc) : Inv (step pc c).1 := by
   | addTransceiver k d => simp only [step, addTransceiver]; exact hi
   | dtlsStarted => simp only [step]; exact hi
 
-/-- the environment is constant along a run -/
+/-- the environment and the transport mode are constant along a run -/
 theorem envok_step (pc : Pc) (c : Call) (hb : EnvOk pc) : EnvOk (step pc c).1 := by
-  unfold EnvOk at *
+  have key : ∀ r : Pc, r.bindFails = pc.bindFails → r.mode = pc.mode → EnvOk r := by
+    intro r h1 h2; unfold EnvOk at hb ⊢; rw [h1, h2]; exact hb
   cases c with
-  | createOffer => simp only [step]; rw [(createOffer_frame pc).2.2.2.2.2.2.2]; exact hb
-  | createAnswer => simp only [step]; rw [(createAnswer_frame pc).2.2.2.2.2.2.2]; exact hb
+  | createOffer => exact key _ (createOffer_frame pc).2.2.2.2.2.2.2 (createOffer_frame pc).2.2.2.2.1
+  | createAnswer => exact key _ (createAnswer_frame pc).2.2.2.2.2.2.2 (createAnswer_frame pc).2.2.2.2.1
   | setLocal d =>
-    rcases setLocal_cases pc d with ⟨e, h, _⟩ | ⟨s', _, h⟩ <;> simp only [step, h] <;> simpa using hb
-  | setRemote d => simp only [step]; rw [(setRemote_frame pc d).2.2.2.2.1]; exact hb
+    rcases setLocal_cases pc d with ⟨e, h, _⟩ | ⟨s', _, h⟩ <;> simp only [step, h]
+    · exact hb
+    · exact key _ (by simp) (by simp)
+  | setRemote d => exact key _ (setRemote_frame pc d).2.2.2.2.1 (setRemote_frame pc d).2.1
   | close => simp only [step, close]; split <;> exact hb
-  | addTransceiver k d => simpa [step, addTransceiver] using hb
-  | dtlsStarted => simpa [step] using hb
+  | addTransceiver k d => exact key _ rfl rfl
+  | dtlsStarted => exact key _ rfl rfl
 
 /-- **accepted_calls_follow_spec** (full; every connection, description, environment):
 (1) a call the JSEP machine forbids returns an error;
@@ -218,9 +220,10 @@ theorem accepted_calls_follow_spec (pc : Pc) (c : Call) (hi : Inv pc) :
   | addTransceiver k d => simp [step, verbOf, addTransceiver, specStep]
   | dtlsStarted => simp [step, verbOf, specStep]
 
-/-- When sockets can be bound, a rejected call leaves the reported state unchanged
-(consequence of `error_is_atomic_partial` below; stated here for the refinement). -/
-theorem rejected_call_keeps_state_partial (pc : Pc) (c : Call) (hb : EnvOk pc)
+/-- **rejected_call_keeps_state** (full; every environment) — a call that returns an error leaves the
+reported signaling state unchanged. (Since the round-2 `fix:`; before it the state had already moved
+when the transport setup failed — `legacy_state_moved_by_rejected_call`.) -/
+theorem rejected_call_keeps_state (pc : Pc) (c : Call)
     (h : (step pc c).2.isErr = true) : (step pc c).1.sig = pc.sig := by
   cases c with
   | createOffer => exact (createOffer_frame pc).1
@@ -234,24 +237,24 @@ theorem rejected_call_keeps_state_partial (pc : Pc) (c : Call) (hb : EnvOk pc)
     simp only [step] at h ⊢
     cases hr : (setRemote pc d).2 with
     | ok => rw [hr] at h; simp [Res.isErr] at h
-    | err e => exact (setRemote_err pc d e hb hr).2.1
+    | err e => exact setRemote_err_sig pc d e hr
   | close => simp [step, Res.isErr] at h
   | addTransceiver k d => simp [step, Res.isErr] at h
   | dtlsStarted => simp [step, Res.isErr] at h
 
 /-! ### all call sequences -/
 
-/-- **state_refines_spec_partial** — for every call sequence (any length, any descriptions, any
-transceiver configuration, any mode), when socket binds succeed: the reported signaling state
-equals the state of the JSEP machine driven by the accepted calls, and no accepted call was one the
-machine forbids (`specRun` never hits `none`). -/
-theorem state_refines_spec_partial (pc : Pc) (cs : List Call) (hi : Inv pc) (hb : EnvOk pc) :
+/-- **state_refines_spec** (FULL) — for every call sequence (any length, any descriptions, any
+transceiver configuration, any transport mode, any environment): the reported signaling state equals
+the state of the JSEP machine driven by the accepted calls, and no accepted call was one the machine
+forbids (`specRun` never hits `none`). -/
+theorem state_refines_spec (pc : Pc) (cs : List Call) (hi : Inv pc) :
     specRun pc.sig ((cs.map verbOf).zip (trace pc cs)) = some (run pc cs).sig := by
   induction cs generalizing pc with
   | nil => rfl
   | cons c cs ih =>
     have hstep := accepted_calls_follow_spec pc c hi
-    have ih' := ih (step pc c).1 (inv_step pc c hi) (envok_step pc c hb)
+    have ih' := ih (step pc c).1 (inv_step pc c hi)
     simp only [List.map_cons, trace, List.zip_cons_cons, run, List.foldl_cons] at ih' ⊢
     cases hr : (step pc c).2 with
     | ok =>
@@ -260,13 +263,13 @@ theorem state_refines_spec_partial (pc : Pc) (cs : List Call) (hi : Inv pc) (hb 
       exact ih'
     | err e =>
       simp only [specRun]
-      rw [← rejected_call_keeps_state_partial pc c hb (by simp [hr, Res.isErr])]
+      rw [← rejected_call_keeps_state pc c (by simp [hr, Res.isErr])]
       exact ih'
 
-/-- … in particular from a new connection in any transport mode, after any setup. -/
-theorem state_refines_spec_new (m : Mode) (cs : List Call) :
-    specRun .stable ((cs.map verbOf).zip (trace (Pc.new m) cs)) = some (run (Pc.new m) cs).sig :=
-  state_refines_spec_partial (Pc.new m) cs (inv_new m false) rfl
+/-- … in particular from a new connection in any transport mode and environment, after any setup. -/
+theorem state_refines_spec_new (m : Mode) (env : Bool) (cs : List Call) :
+    specRun .stable ((cs.map verbOf).zip (trace (Pc.new m env) cs)) = some (run (Pc.new m env) cs).sig :=
+  state_refines_spec (Pc.new m env) cs (inv_new m env)
 
 theorem inv_run (pc : Pc) (cs : List Call) (hi : Inv pc) : Inv (run pc cs) := by
   induction cs generalizing pc with
@@ -328,30 +331,31 @@ theorem closed_is_terminal (pc : Pc) (cs : List Call) (hc : pc.sig = .closed) :
 FULL STATEMENT (false for the current code, see `error_is_atomic_witness`):
   theorem error_is_atomic (pc : Pc) (c : Call) (e : Err) (h : (step pc c).2 = .err e) :
       Obs (step pc c).1 = Obs pc
-What is missing: the direct modes would have to bind their sockets before assigning mids /
-applying the description / moving the state (a restructuring of `build_description` and
-`set_remote_description`, not a guard-clause move).
+What is missing: RTP mode configures (binds) the per-section media transports after the description has
+been stored and the transceivers updated; SDES-SRTP starts its direct transport after the mid counter /
+role were updated, and binds the offer socket after the gathering wait, i.e. after mids were assigned.
+Repair = bind first, apply second: a restructuring of `set_remote_description` / `build_description`.
 -/
 
-/-- **error_is_atomic_partial** — when socket binds succeed (`EnvOk`), for every connection state,
-every call and every description (hence every call/state pair): a call that returns an error
-leaves the signaling state, both stored descriptions and every transceiver (mid, direction, payload
-map, extension map, and the list itself) exactly as they were; indeed everything except the mid
-counter. -/
+/-- **error_is_atomic_partial** — under `EnvOk` (socket binds succeed, or WebRTC mode), for every
+connection state, every call and every description (hence every call/state pair): a call that returns
+an error returns the connection EXACTLY as it was — signaling state, both stored descriptions, every
+transceiver (mid, direction, payload map, extension map, the list itself), and also the mid counter,
+the cached remote fingerprint and the DTLS role. -/
 theorem error_is_atomic_partial (pc : Pc) (c : Call) (e : Err) (hb : EnvOk pc)
-    (h : (step pc c).2 = .err e) : ((step pc c).1).sameButMid pc := by
+    (h : (step pc c).2 = .err e) : (step pc c).1 = pc := by
   cases c with
   | createOffer =>
     rcases createOffer_cases pc hb with ⟨e', h', _⟩ | ⟨_, hok, _⟩
-    · simp only [step, h']; exact Pc.sameButMid_refl pc
+    · simp only [step, h']
     · simp only [step] at h; rw [hok] at h; cases h
   | createAnswer =>
     rcases createAnswer_cases pc hb with ⟨e', h'⟩ | ⟨_, hok, _⟩
-    · simp only [step, h']; exact Pc.sameButMid_refl pc
+    · simp only [step, h']
     · simp only [step] at h; rw [hok] at h; cases h
   | setLocal d =>
     rcases setLocal_cases pc d with ⟨e', h', _⟩ | ⟨s', _, h'⟩
-    · simp only [step, h']; exact Pc.sameButMid_refl pc
+    · simp only [step, h']
     · simp only [step, h'] at h; cases h
   | setRemote d => exact setRemote_err pc d e hb h
   | close => simp [step] at h
@@ -361,39 +365,46 @@ theorem error_is_atomic_partial (pc : Pc) (c : Call) (e : Err) (hb : EnvOk pc)
 /-- the property's own wording, as a corollary -/
 theorem error_is_atomic_partial_obs (pc : Pc) (c : Call) (e : Err) (hb : EnvOk pc)
     (h : (step pc c).2 = .err e) : Obs (step pc c).1 = Obs pc := by
-  obtain ⟨_, h2, _, h4, h5, h6, _⟩ := error_is_atomic_partial pc c e hb h
-  simp [Obs, h2, h4, h5, h6]
+  rw [error_is_atomic_partial pc c e hb h]
+
+/-- **error_is_atomic_webrtc** — in WebRTC mode the statement holds in every environment (no socket is
+bound inside a signaling call). -/
+theorem error_is_atomic_webrtc (pc : Pc) (c : Call) (e : Err) (hm : pc.mode = .webrtc)
+    (h : (step pc c).2 = .err e) : (step pc c).1 = pc :=
+  error_is_atomic_partial pc c e (Or.inr hm) h
 
 theorem envok_run (pc : Pc) (cs : List Call) (hb : EnvOk pc) : EnvOk (run pc cs) := by
   induction cs generalizing pc with
   | nil => exact hb
   | cons c cs ih => simp only [run, List.foldl_cons]; exact ih _ (envok_step pc c hb)
 
-/-- … and along every call sequence: each rejected call is an identity on `Obs`. -/
+/-- … and along every call sequence: each rejected call is an identity. -/
 theorem error_is_atomic_partial_run (pc : Pc) (cs : List Call) (c : Call) (e : Err) (hb : EnvOk pc)
-    (h : (step (run pc cs) c).2 = .err e) : Obs (run pc (cs ++ [c])) = Obs (run pc cs) := by
+    (h : (step (run pc cs) c).2 = .err e) : run pc (cs ++ [c]) = run pc cs := by
   simp only [run, List.foldl_append, List.foldl_cons, List.foldl_nil]
-  exact error_is_atomic_partial_obs _ c e (envok_run pc cs hb) h
+  exact error_is_atomic_partial _ c e (envok_run pc cs hb) h
 
-/-- **error_is_atomic_signaling_checks** — in EVERY environment: a call rejected by one of the
-signaling checks (wrong state, rollback, fingerprint missing / unsupported / malformed / changed,
-glare, no transceivers) — i.e. any error other than the socket layer's `Internal` — leaves
-everything but the mid counter untouched. (`create_answer`'s own `Internal` "no transceiver for
-mid" is covered by `error_is_atomic_partial`.) -/
+/-- **error_is_atomic_signaling_checks** — whatever the `bindFails` environment: a call rejected with an
+error other than `Internal` — in the model: wrong state, rollback, fingerprint missing / unsupported /
+malformed / changed, glare, no transceivers — returns the connection exactly as it was.  Scope of the
+claim: the model has ONE environment event (a failing socket bind, reported as `Internal`); error sites
+of the code that cannot fire today (`build_description`'s "ICE gathering failed", `InvalidState`, placed
+after mid assignment but `start_gathering` never returns `Err`) are not modelled and not covered.
+(`create_answer`'s own `Internal` "no transceiver for mid" is covered by `error_is_atomic_partial`.) -/
 theorem error_is_atomic_signaling_checks (pc : Pc) (c : Call) (e : Err) (he : e ≠ .internal)
-    (h : (step pc c).2 = .err e) : ((step pc c).1).sameButMid pc := by
+    (h : (step pc c).2 = .err e) : (step pc c).1 = pc := by
   cases c with
   | createOffer =>
     rcases createOffer_err_general pc e h with h' | h'
-    · simp only [step, h']; exact Pc.sameButMid_refl pc
+    · simp only [step, h']
     · exact absurd h' he
   | createAnswer =>
     rcases createAnswer_err_general pc e h with h' | h'
-    · simp only [step, h']; exact Pc.sameButMid_refl pc
+    · simp only [step, h']
     · exact absurd h' he
   | setLocal d =>
     rcases setLocal_cases pc d with ⟨e', h', _⟩ | ⟨s', _, h'⟩
-    · simp only [step, h']; exact Pc.sameButMid_refl pc
+    · simp only [step, h']
     · simp only [step, h'] at h; cases h
   | setRemote d =>
     rcases setRemote_err_general pc d e h with h' | h'
@@ -431,8 +442,8 @@ theorem descriptions_change_only_by_successful_setter_partial (pc : Pc) (c : Cal
       obtain ⟨s', _, _, hrem, hloc, _⟩ := setRemote_ok pc d hr
       exact ⟨fun hne => absurd hloc hne, fun _ => ⟨d, rfl, rfl, hrem⟩⟩
     | err e =>
-      obtain ⟨_, _, _, hloc, hrem, _⟩ := setRemote_err pc d e hb hr
-      exact ⟨fun hne => absurd hloc hne, fun hne => absurd hrem hne⟩
+      rw [setRemote_err pc d e hb hr]
+      exact ⟨fun hne => absurd rfl hne, fun hne => absurd rfl hne⟩
   | close => simp only [step, close]; split <;> simp
   | addTransceiver k d => simp [step, addTransceiver]
   | dtlsStarted => simp [step]
@@ -451,6 +462,8 @@ def answerA : Desc := { id := 2, ty := .answer, eqKey := 2, fp := .sha256 0, sec
 def pcAudio : Pc := addTransceiver (Pc.new .webrtc) .audio .sendrecv
 /-- an RTP-mode connection whose configured bind address cannot be bound -/
 def pcRtpNoBind : Pc := addTransceiver (Pc.new .rtp true) .audio .sendrecv
+def pcSrtpNoBind : Pc := addTransceiver (Pc.new .srtp true) .audio .sendrecv
+def answer7 : Desc := { id := 2, ty := .answer, eqKey := 2, fp := .sha256 0, sections := [audioSec "7" "0 PCMU/8000"] }
 
 /-! ### what a first offer leaves behind (hypotheses `KindSynced` / `DirSynced` of C08) -/
 
@@ -509,38 +522,49 @@ example : (step (run pcAudio [.createOffer, .setLocal offerA]) (.setLocal offerB
       (run pcAudio [.createOffer, .setLocal offerA]).trxs := by decide
 
 /-- **Witness: the full atomicity statement is false for the current code.** RTP mode, bind address
-unusable: `set_remote_description(offer)` applies the offer (state → HaveRemoteOffer, description
-stored, transceiver parameters set) and then returns the socket error; `create_offer` assigns the
-mids and then returns it. Replayed on the implementation: `r!/a0/srP0o`, `r!/a0/co`
-(known findings `atom:…:io-failure-after-apply`). -/
+unusable: `set_remote_description(offer)` stores the offer and sets the transceiver parameters, then
+returns the socket error (the signaling state, since the round-2 fix, stays). Replayed on the
+implementation: `r!/a0/srP0o` (known findings `atom:set_remote(…):…:r:rtp-media-transport-bind:…`). -/
 theorem error_is_atomic_witness :
     ¬ (∀ (pc : Pc) (c : Call) (e : Err), (step pc c).2 = .err e → Obs (step pc c).1 = Obs pc) := by
   intro h
   have := h pcRtpNoBind (.setRemote offerA) .internal (by decide)
   revert this; decide
 
-theorem create_offer_error_after_mid_assignment :
-    (step pcRtpNoBind .createOffer).2 = .err .internal ∧
-    (step pcRtpNoBind .createOffer).1.trxs ≠ pcRtpNoBind.trxs := by decide
+/-- … and the state is NOT among what that rejected call changed -/
+example : (step pcRtpNoBind (.setRemote offerA)).2 = .err .internal ∧
+    (step pcRtpNoBind (.setRemote offerA)).1.sig = pcRtpNoBind.sig ∧
+    (step pcRtpNoBind (.setRemote offerA)).1.rem ≠ pcRtpNoBind.rem := by decide
 
-/-- **Witness: the full refinement statement is false for the current code**, same input: the call
-is rejected, yet the reported state has moved to HaveRemoteOffer while the JSEP machine (which did
-not see an accepted call) is still in Stable. -/
-theorem state_refines_spec_witness :
-    ¬ (∀ (pc : Pc) (cs : List Call), Inv pc →
-        specRun pc.sig ((cs.map verbOf).zip (trace pc cs)) = some (run pc cs).sig) := by
-  intro h
-  have := h pcRtpNoBind [.setRemote offerA] (by decide)
-  revert this; decide
+/-- SDES-SRTP mode still assigns the mids before the (gathering wait and) offer socket bind -/
+theorem srtp_create_offer_error_after_mid_assignment :
+    (step pcSrtpNoBind .createOffer).2 = .err .internal ∧
+    (step pcSrtpNoBind .createOffer).1.trxs ≠ pcSrtpNoBind.trxs := by decide
 
-/-- **Witness (before the first `fix:` commit)** — `set_local_description(offer)` in a state other
+/-- RTP mode (since the round-2 fix): the bind failure is reported before anything is assigned -/
+example : step pcRtpNoBind .createOffer = (pcRtpNoBind, .err .internal) := by decide
+
+/-- **Witness about superseded code** (before the round-2 `fix:` that defers the transition): the call is
+rejected, yet the reported state had moved to HaveRemoteOffer while the JSEP machine was in Stable —
+`state_refines_spec` was false. -/
+theorem legacy_state_moved_by_rejected_call :
+    (Legacy.setRemote pcRtpNoBind offerA).2 = .err .internal ∧
+    (Legacy.setRemote pcRtpNoBind offerA).1.sig = .haveRemoteOffer ∧ pcRtpNoBind.sig = .stable := by decide
+
+/-- **Witness about superseded code** (before the round-2 `fix:` in `create_offer`): RTP mode assigned the
+mids and then reported the bind failure. -/
+theorem legacy_create_offer_error_after_mid_assignment :
+    (Legacy.createOffer pcRtpNoBind).2 = .err .internal ∧
+    (Legacy.createOffer pcRtpNoBind).1.trxs ≠ pcRtpNoBind.trxs := by decide
+
+/-- **Witness about superseded code** (before the first `fix:` commit) — `set_local_description(offer)` in a state other
 than `Stable` returned an error *after* rewriting the transceiver's payload map. -/
 theorem legacy_set_local_offer_wrong_state_mutates :
     ∃ (pc : Pc) (d : Desc) (e : Err), EnvOk pc ∧
       (Legacy.setLocal pc d).2 = .err e ∧ (Legacy.setLocal pc d).1.trxs ≠ pc.trxs :=
   ⟨run pcAudio [.createOffer, .setLocal offerA], offerB, .invalidState, by decide⟩
 
-/-- **Witness (before the second `fix:` commit)** — with the DTLS transport started, a remote re-offer
+/-- **Witness about superseded code** (before the second `fix:` commit) — with the DTLS transport started, a remote re-offer
 carrying a different fingerprint was applied (`handle_reinvite`), the state moved to
 HaveRemoteOffer, and only then the call failed. -/
 theorem legacy_set_remote_fingerprint_error_after_transition :
@@ -557,11 +581,15 @@ example :
       (run pcAudio [.setRemote offerA, .createAnswer, .setLocal answerA, .dtlsStarted], .err .invalidState) := by
   decide
 
-/-- Not part of the property's list, stated for transparency: the mid counter is advanced before the
-state check of `set_remote_description`, so it moves on a rejected call. -/
-theorem mid_counter_moves_on_rejected_remote_description :
-    ∃ (pc : Pc) (d : Desc) (e : Err), EnvOk pc ∧
-      (setRemote pc d).2 = .err e ∧ (setRemote pc d).1.nextMid ≠ pc.nextMid :=
-  ⟨Pc.new .rtp, { answerA with sections := [audioSec "7" "0 PCMU/8000"] }, .invalidState, by decide⟩
+/-- **Witness about superseded code** (before the round-2 `fix:` that moved the mid-counter update below
+the state check): a rejected `set_remote_description` advanced the mid counter. -/
+theorem legacy_mid_counter_moved_on_rejected_remote_description :
+    (Legacy.setRemote (Pc.new .rtp) answer7).2 = .err .invalidState ∧
+    (Legacy.setRemote (Pc.new .rtp) answer7).1.nextMid ≠ (Pc.new .rtp).nextMid ∧
+    setRemote (Pc.new .rtp) answer7 = (Pc.new .rtp, .err .invalidState) := by decide
+
+/-- the u16 edge of the mid counter: `a=mid:65535` saturates (`saturating_add`), it does not wrap -/
+example : (setRemote (Pc.new .rtp) { offerA with sections := [audioSec "65535" "0 PCMU/8000"] }).1.nextMid = 65535 := by
+  decide
 
 end RtcModel.Theorems.C09
